@@ -86,7 +86,8 @@ def observe(obj, kind):
                 'ids': [obj.atomid], 'resids': [obj.resid], 'resnames': [obj.resname], 'names': [obj.name]}
     vel = obj.atoms_velocities
     out = {'pos': np.array(obj.atoms_positions, float), 'vel': None if vel is None else np.array(vel, float),
-           'ids': list(obj.atoms_ids), 'names': [a.name for a in obj]}
+           'ids': list(obj.atoms_ids), 'names': [a.name for a in obj],
+           'centre': np.array(obj.geometric_center, float)}
     if kind == 'residue':
         out['resids'] = [obj.resid]
         out['resnames'] = [obj.resname]
@@ -123,6 +124,10 @@ def compare(obs, exp, exact):
             dmax = float(np.abs(a - b).max())
             if (exact and not np.array_equal(a, b)) or dmax > tol:
                 return k, f'max difference {dmax:.3e}'
+    if 'centre' in obs:
+        c = np.asarray(exp['pos']).mean(axis=0)
+        if np.abs(obs['centre'] - c).max() > 1e-12:
+            return 'centre', f'geometric centre off by {float(np.abs(obs["centre"] - c).max()):.3e}'
     for k in ('ids', 'resids', 'resnames', 'names') + (('top',) if 'top' in exp else ()):
         if list(obs[k]) != list(exp[k]):
             return k, f'{obs[k]} vs expected {exp[k]}'
@@ -153,8 +158,8 @@ class C18(Check):
     assumptions = ['coordinates/velocities/rotation from VERIF_SEED tables',
                    'Residue objects reached through Molecule.residues are not claimed to be views (not in the statement)']
 
-    KINDS = ('mol_copy', 'mol_deep', 'mol_align_start', 'mol_align_end', 'mol_system_index', 'mol_system_iter',
-             'mol_novel', 'residue', 'atom')
+    KINDS = ('mol_copy', 'mol_deep', 'mol_align_start', 'mol_align_end', 'mol_align_restart', 'mol_align_reend',
+             'mol_system_index', 'mol_system_iter', 'mol_novel', 'residue', 'atom')
 
     def units(self, tier, seed):
         deep_kinds = ('mol_copy', 'mol_deep', 'residue', 'atom') if tier == 'thorough' else ()
@@ -239,6 +244,15 @@ class C18(Check):
             st.copy = st.keep.start
         elif k == 'mol_align_end':
             st.keep = Alignment(end=st.orig)
+            st.copy = st.keep.end
+        elif k == 'mol_align_restart':
+            # both molecules set, then the start re-assigned ("same molecule, new configuration")
+            st.keep = Alignment(start=st.syst[1], end=st.syst[1])
+            st.keep.start = st.orig
+            st.copy = st.keep.start
+        elif k == 'mol_align_reend':
+            st.keep = Alignment(start=st.syst[1], end=st.syst[1])
+            st.keep.end = st.orig
             st.copy = st.keep.end
         elif k == 'mol_system_index':
             st.copy = st.syst[0]
